@@ -12,6 +12,7 @@
 //	crash N               (sthdrive) cut a crash image inside the next flush after N mod (records+1) index records
 //	pgcb LOWUSE BUDGET    primary GC cycle whose context fails after BUDGET successful ctx.Err() polls
 //	igcb SCANFREE BUDGET  the same for an index GC cycle
+//	pgcl LOWUSE BUDGET    primary GC cycle with a time limit as the production collector applies it: the budget starts to count after the freelist has been applied
 //	at POINT put K V      run the inner operation inline at yield point POINT of the next operation
 //	missize               Close; opens with other file-size limits must be refused; reopen
 //
@@ -123,7 +124,7 @@ func Parse(path string) (*History, error) {
 			h.Ops = append(h.Ops, Op{Kind: fs[0], Key: k})
 		case "flush", "iter", "close", "missize":
 			h.Ops = append(h.Ops, Op{Kind: fs[0]})
-		case "pgcb", "igcb":
+		case "pgcb", "igcb", "pgcl":
 			// budgeted GC cycle: pgcb LOWUSE BUDGET / igcb SCANFREE BUDGET (BUDGET = number of ctx.Err() polls that succeed)
 			if len(fs) != 3 {
 				return nil, bad(fs[0] + " needs two numbers")
